@@ -886,6 +886,21 @@ Proof.
   - rewrite B1, A1. reflexivity.
 Qed.
 
+(* ---------- Swap and move assignment ---------- *)
+Lemma Swap_J w : J w -> J (Swap w).
+Proof.
+  intros (g & P0 & P1 & d). unfold J, Jq. cbn [getp negb] in *.
+  assert (same_maps (Swap w) w) as SM by (repeat split).
+  change (getp (Swap w) false) with (cp1 w). change (getp (Swap w) true) with (cp0 w).
+  split; [exact (G_same_maps _ _ SM g)|]. split; [exact (Pl_same_maps _ _ _ _ SM P1)|].
+  split; [exact (Pl_same_maps _ _ _ _ SM P0)|]. intros b H1 H0. exact (d b H0 H1).
+Qed.
+Lemma MoveAssign_J w d : J w -> J (MoveAssign w d).
+Proof.
+  intros Jw. unfold MoveAssign. destruct (acount (getp w d) =? 0); [|exact Jw].
+  apply Swap_J. apply (J_any d). apply DeallocateAll_J. apply (J_any d). exact Jw.
+Qed.
+
 (* ---------- all histories ---------- *)
 Lemma memb_In bk l : memb bk l = true -> In bk l.
 Proof.
@@ -893,13 +908,15 @@ Proof.
 Qed.
 
 (* operations of a history; a Deallocate of a block that is not live in that pool (a use the pool's contract forbids) is ignored *)
-Inductive gop := GAlloc (p : bool) | GFree (p : bool) (bk : blk) | GMerge (d : bool) | GAll (p : bool).
+Inductive gop := GAlloc (p : bool) | GFree (p : bool) (bk : blk) | GMerge (d : bool) | GAll (p : bool) | GSwap | GMove (d : bool).
 Definition gstep (w : cworld) (o : gop) : cworld :=
   match o with
   | GAlloc p => fst (Allocate C uc w p)
   | GFree p bk => if memb bk (live (getp w p)) then Deallocate C CF uc w p bk else w
   | GMerge d => MergeFrom C uc w d
   | GAll p => DeallocateAll w p
+  | GSwap => Swap w
+  | GMove d => MoveAssign w d
   end.
 Definition grun (ops : list gop) : cworld := foldl gstep ops empty_world.
 
@@ -907,7 +924,18 @@ Definition nocache (w : cworld) : Prop := uc = false -> PoolConcProofs.caches w 
 
 Lemma gstep_nocache w o : nocache w -> nocache (gstep w o).
 Proof.
-  intros H U. specialize (H U). destruct o as [p|p bk|d|p]; simpl.
+  intros H U. pose proof (H U) as H'. assert (forall v p, nocache v -> nocache (DeallocateAll v p)) as DA.
+  { clear. intros v p Hv U. specialize (Hv U). unfold DeallocateAll. destruct (lfree (getp v p)) eqn:El; [exact Hv|]. rewrite <- El. cbv zeta.
+    assert (forall l' w0, PoolConcProofs.caches (return_all w0 l') = PoolConcProofs.caches w0) as RA
+      by (intros l' w0; unfold return_all; apply PoolConcProofs.foldl_caches; reflexivity).
+    unfold PoolConcProofs.caches in *. apply pair_equal_spec in Hv. destruct Hv as [H0 H1].
+    pose proof (RA (lfree (getp v p)) (return_all v (rev0 (lfull (getp v p)) []))) as R1.
+    pose proof (RA (rev0 (lfull (getp v p)) []) v) as R2.
+    apply pair_equal_spec in R1. destruct R1 as [R10 R11]. apply pair_equal_spec in R2. destruct R2 as [R20 R21].
+    destruct p; cbn [setp cp0 cp1 cache]; rewrite ?R10, ?R11, ?R20, ?R21, ?H0, ?H1; reflexivity. }
+  assert (forall v, nocache v -> nocache (Swap v)) as SW.
+  { clear. intros v Hv U. specialize (Hv U). unfold PoolConcProofs.caches in *. apply pair_equal_spec in Hv. destruct Hv as [H0 H1]. simpl. rewrite H0, H1. reflexivity. }
+  rename H into Hn. rename H' into H. destruct o as [p|p bk|d|p| |d]; simpl; [| | | |exact (SW w Hn U)|unfold MoveAssign; destruct (acount (getp w d) =? 0); [exact (SW _ (DA w d Hn) U)|exact H]].
   - unfold Allocate. rewrite U.
     assert (PoolConcProofs.caches (fst (let '(w0, bk) := pvNewBlock C w p in (add_live w0 p bk, bk))) = ([], [])) as V.
     { pose proof (PoolConcProofs.pvNewBlock_caches C w p) as K. destruct (pvNewBlock C w p) as [w0 bk]. cbn [fst] in *.
@@ -929,7 +957,7 @@ Qed.
 
 Lemma gstep_J w o : J w -> nocache w -> J (gstep w o).
 Proof.
-  intros Jw Nc. destruct o as [p|p bk|d|p]; simpl.
+  intros Jw Nc. destruct o as [p|p bk|d|p| |d]; simpl; [| | | |apply Swap_J; exact Jw|apply MoveAssign_J; exact Jw].
   - apply (J_any p). apply Allocate_J. apply (J_any p). exact Jw.
   - destruct (memb bk (live (getp w p))) eqn:M; [|exact Jw]. apply (J_any p). apply Deallocate_J; [apply (J_any p); exact Jw|apply memb_In; exact M].
   - apply (J_any d). apply MergeFrom_J; [|apply (J_any d); exact Jw].
@@ -1066,7 +1094,15 @@ Qed.
 
 Lemma gstep_NR w o : J w -> NoDup (returned w) -> NoDup (returned (gstep w o)).
 Proof.
-  intros Jw ND. destruct o as [p|p bk|d|p]; simpl.
+  intros Jw ND. assert (forall v p, J v -> NoDup (returned v) -> NoDup (returned (DeallocateAll v p))) as DA.
+  { clear - HC. intros v p Jv NDv. unfold DeallocateAll. destruct (lfree (getp v p)) as [|h t] eqn:El; [exact NDv|]. rewrite <- El. rewrite returned_setp.
+    rewrite !returned_return_all. apply (J_any p) in Jv. destruct Jv as (_ & (P1 & P2 & _) & _). set (x := getp v p) in *.
+    rewrite rev0_spec, app_nil_r, rev_involutive. rewrite app_assoc. apply NoDup_app_iff. split; [|split; [exact NDv|]].
+    + unfold own in P1. apply NoDup_app_iff in P1. destruct P1 as (N1 & N2 & D). apply NoDup_app_iff.
+      split; [apply NoDup_rev; exact N2|]. split; [exact N1|]. intros y H1 H2. apply in_rev in H1. exact (D y H2 H1).
+    + intros y H1 H2. assert (In y (own x)) as Ho by (unfold own; rewrite in_app_iff in *; rewrite <- in_rev in H1; tauto).
+      exact (proj2 (P2 y Ho) H2). }
+  destruct o as [p|p bk|d|p| |d]; simpl; [| | | |exact ND|unfold MoveAssign; destruct (acount (getp w d) =? 0); [exact (DA w d Jw ND)|exact ND]].
   - rewrite returned_Allocate. exact ND.
   - destruct (memb bk (live (getp w p))) eqn:M; [|exact ND]. apply memb_In in M. apply (J_any p) in Jw.
     unfold Deallocate. destruct uc.
